@@ -126,14 +126,17 @@ pub mod unit {
     pub open spec fn fdiv(a: int, b: int) -> int { trunc_q(a * e18(), b) }
     /// stake units minted for x XRD when the validator holds T XRD against S units
     pub open spec fn stake_units(x: int, t: int, s: int) -> int { if t == 0 { x } else { fmul(x, fdiv(s, t)) } }
-    /// the Decimal computation succeeds iff no intermediate leaves the 192-bit range
+    /// what Decimal::checked_mul / checked_div can return: the 192-bit range WITHOUT its most negative value
+    /// (known boundary finding C24: the wide->narrow conversion of the real code rejects -2^191)
+    pub open spec fn fits_dec(i: int) -> bool { dec_min() < i <= dec_max() }
+    /// the Decimal computation succeeds iff no intermediate leaves that range
     pub open spec fn stake_units_ok(x: int, t: int, s: int) -> bool {
-        t == 0 || (in_dec(fdiv(s, t)) && in_dec(fmul(x, fdiv(s, t))))
+        t == 0 || (fits_dec(fdiv(s, t)) && fits_dec(fmul(x, fdiv(s, t))))
     }
     /// XRD owed for u stake units when the validator holds T XRD against S units
     pub open spec fn redemption(u: int, t: int, s: int) -> int { if s == 0 { 0 } else { fmul(u, fdiv(t, s)) } }
     pub open spec fn redemption_ok(u: int, t: int, s: int) -> bool {
-        s == 0 || (in_dec(fdiv(t, s)) && in_dec(fmul(u, fdiv(t, s))))
+        s == 0 || (fits_dec(fdiv(t, s)) && fits_dec(fmul(u, fdiv(t, s))))
     }
     pub open spec fn computation_error() -> RuntimeError {
         RuntimeError::ApplicationError(ApplicationError::ValidatorError(ValidatorError::UnexpectedDecimalComputationError))
@@ -294,7 +297,7 @@ pub mod unit {
             ensures ret is Ok <==> stake_units_ok(xrd_amount.v(), total_stake_xrd_amount.v(), total_stake_unit_supply.v()),
                     ret matches Ok(u) ==> u.v() == stake_units(xrd_amount.v(), total_stake_xrd_amount.v(), total_stake_unit_supply.v()),
                     ret matches Err(e) ==> e == computation_error(),
-        @closure 1 := |amount: Decimal| -> (r: Option<Decimal>) ensures r == (if in_dec(dec_mul(xrd_amount.v(), amount.v())) { Some(Decimal::of(dec_mul(xrd_amount.v(), amount.v()))) } else { None })
+        @closure 1 := |amount: Decimal| -> (r: Option<Decimal>) ensures r == (if fits_dec(dec_mul(xrd_amount.v(), amount.v())) { Some(Decimal::of(dec_mul(xrd_amount.v(), amount.v()))) } else { None })
         @*/
 
         /*@fn radix-engine/src/blueprints/consensus_manager/validator.rs :: impl ValidatorBlueprint :: fn calculate_redemption_value
@@ -312,7 +315,7 @@ pub mod unit {
                     // the only error of its own is the overflow error, raised only when the computation does overflow
                     &&& (ret matches Err(e) ==> (e.is_validator_error() ==> e == computation_error() && !redemption_ok(amount_of_stake_units.v(), t, s)))
                 }),
-        @closure 1 := |amount: Decimal| -> (r: Option<Decimal>) ensures r == (if in_dec(dec_mul(amount_of_stake_units.v(), amount.v())) { Some(Decimal::of(dec_mul(amount_of_stake_units.v(), amount.v()))) } else { None })
+        @closure 1 := |amount: Decimal| -> (r: Option<Decimal>) ensures r == (if fits_dec(dec_mul(amount_of_stake_units.v(), amount.v())) { Some(Decimal::of(dec_mul(amount_of_stake_units.v(), amount.v()))) } else { None })
         @*/
     }
 
@@ -328,7 +331,7 @@ pub mod unit {
         ensures ret matches Ok(b) && be16(b) == sort_prefix(stake.v()),
     @entry
         proof { lemma_sort_prefix_steps(stake.v()); }
-    @closure 1 := |power: Decimal| -> (r: Option<Decimal>) ensures r == (if power.v() != 0 && in_dec(dec_div(stake_100k.v(), power.v())) { Some(Decimal::of(dec_div(stake_100k.v(), power.v()))) } else { None })
+    @closure 1 := |power: Decimal| -> (r: Option<Decimal>) ensures r == (if power.v() != 0 && fits_dec(dec_div(stake_100k.v(), power.v())) { Some(Decimal::of(dec_div(stake_100k.v(), power.v()))) } else { None })
     @subst <<.to_be_bytes()>> => <<.to_be_bytes_u16()>> why: Verus cannot attach a spec to u16::to_be_bytes (std signature has an anonymous-const array length); to_be_bytes_u16 in shims/decimal_validator_ext.rs is that call with the big-endian contract
     @*/
 }
